@@ -119,7 +119,7 @@ def build(name, spec, X, seed=0):
             kw["kernel"] = aff.my_kernel_pair
             expect = {"A": aff.my_kernel(X)}
         else:
-            sp = {s[0]: s for s in aff.KERNEL_SPECS}[tag]
+            sp = {s[0]: s for s in aff.KERNEL_SPECS}.get(tag, (tag, tag, None, False))   # tag or plain scikit-learn name
             kw["kernel"] = sp[1]
             expect = {"A": pairwise_kernels(X, metric=sp[1])}
     return M.make(name, **kw), y, expect
